@@ -53,9 +53,18 @@ class C17(InterpProp):
         #  such guests are only used for renaming)
         if rnd.random() < 0.7 or root_final:
             names = list(sc.states)
-            chosen = rnd.sample(names, rnd.randint(1, max(1, len(names) // 2)))
-            renames = [[n, n + rnd.choice(['!', '!!', '!0'])] for n in chosen]
-            payload = {'mode': 'rename', 'renames': renames}
+            if rnd.random() < 0.3 and len(names) >= 3:
+                # an order-preserving shift along a block of consecutive names (in name order): the last
+                # gets a fresh, slightly larger name, every other takes the name of its successor —
+                # freed names are reused at once
+                srt = sorted(names)
+                i = rnd.randrange(0, len(srt) - 1)
+                j = rnd.randrange(i + 1, min(len(srt), i + 4))
+                renames = [[srt[j], srt[j] + '!']] + [[srt[t], srt[t + 1]] for t in range(j - 1, i - 1, -1)]
+            else:
+                chosen = rnd.sample(names, rnd.randint(1, max(1, len(names) // 2)))
+                renames = [[n, n + rnd.choice(['!', '!!', '!0'])] for n in chosen]
+            payload = {'mode': 'rename', 'renames': renames, 'warm': rnd.random() < 0.5}
             charts = [sc]
         else:
             payload = {'mode': 'copy', 'prefix': rnd.choice(['g_', 'zz_', 'a0'])}
@@ -80,15 +89,20 @@ class C17(InterpProp):
         sc2 = copy.deepcopy(sc)
         ok = True
         if p['mode'] == 'rename':
-            rho = {}
+            if p.get('warm'):
+                gen.warm(sc2)        # the statechart was used before it is renamed
+            cur = {n: n for n in sc.states}      # original name -> current name
             edit_ops = []
             for old, new in p['renames']:
                 edit_ops.append(['rename_state', old, new])
                 try:
                     sc2.rename_state(old, new)
-                    rho[old] = new
+                    for o, c in list(cur.items()):
+                        if c == old:
+                            cur[o] = new
                 except Exception:
                     ok = False
+            rho = {o: c for o, c in cur.items() if o != c}
             edit_case = {'kind': 'edit', 'chart': ChartEnc(sc).json, 'ops': edit_ops}
             twin = sc2
         else:
@@ -131,7 +145,11 @@ class C17(InterpProp):
             except Exception as e:     # noqa
                 err = type(e).__name__
             eobs.append({'err': err, 'chart': snapshot(sc)})
-        charts = [copy.deepcopy(c) for c in case.aux['charts']]
+        if p.get('warm'):
+            # the renamed chart is run as the very object that was used and then renamed
+            charts = [copy.deepcopy(case.aux['charts'][0]), case.aux['charts'][1]]
+        else:
+            charts = [copy.deepcopy(c) for c in case.aux['charts']]
         case.aux['run_charts'] = charts
         iobs, _ = impl.run_case(p['cases'][1], charts)
         return {'multi': [{'obs': eobs}, iobs]}
